@@ -14,7 +14,7 @@ N, B, L, T = py2lean.N, py2lean.B, py2lean.L, py2lean.T
 _SUP_FNS = {"constraint_stride_range": "stride_range", "constraint_dilated_height_range": "dilated_height_range",
             "constraint_dilated_product_range": "dilated_product_range",
             "constraint_filter_height_range": "filter_height_range",
-            "constraint_filter_product_range": "filter_product_range"}
+            "constraint_filter_product_range": "filter_product_range", "constraint_filter_range": "filter_range"}
 
 # key -> (path relative to the repo, Lean module name, [functions], per-function configuration)
 MODULES = {
@@ -110,7 +110,7 @@ MODULES = {
     "tflite_supported_operators": ("ethosu/vela/tflite_supported_operators.py", "SrcTfliteSupportedOperators", [
         "TFLiteSupportedOperators." + f for f in _SUP_FNS],
         {"TFLiteSupportedOperators." + f: {"records": ["op"], "ignore_decorators": ["docstring_format_args"],
-                                           "ret_first_of_pair": True,
+                                           "ret_first_of_pair": True, "record_str_keys": True, "opaque_in_branches": True,
                                            "opaque": {"op.get_kernel_stride": [N, N], "cls." + r: [N, N]}}
          for f, r in _SUP_FNS.items()}),
     "operation": ("ethosu/vela/operation.py", "SrcOperation", [
